@@ -5,7 +5,7 @@ cd "$(dirname "$0")"
 export GOFLAGS=-mod=mod GOPROXY=off
 unset GOTOOLCHAIN GOSUMDB || true
 mkdir -p out/tmp bin evidence
-export TMPDIR="$PWD/out/tmp" GOCACHE="${GOCACHE:-$PWD/out/gocache}"
+export TMPDIR="$PWD/out/tmp"
 sh harness/gen_gomod.sh
 (cd harness && go build -tags verif -o ../bin/vharness ./cmd/vharness)
 if ls spec/*.java >/dev/null 2>&1; then
